@@ -116,39 +116,45 @@ def dm_family(rng, n):
     """Data Matrix mode machine under size constraints: short strings over character classes that make the look-ahead
     switch modes (C40 / Text / X12 / EDIFACT / Base 256 natives, one or two strangers near the end), with shape, minimum
     and maximum size hints taken from the small symbol sizes."""
-    out = []
     alpha = ['1', 'A', 'B', 'a', ' ', '*', '\r', '>', '^', '!', '\x01', 'é', '2']
     for _ in range(n):
         r = rng.random()
-        if r < 0.5:
+        tail = r >= 0.7           # C40 / Text natives ending in an extended character, under a small maximum size
+        if r < 0.4:
             ln = 1 + rng.randrange(18)
             k = 2 + rng.randrange(len(alpha) - 1)
             rng.shuffle(alpha)
             s = "".join(alpha[rng.randrange(k)] for _ in range(ln))
         else:
-            base = rng.choice(["ABCDEFGHIJ0123456789 ", "abcdefghij0123456789 ", "AB12>*\r ", "AB12.,-()"])
-            ln = 3 + rng.randrange(18)
+            base = rng.choice(["ABCDEFGHIJ0123456789 ", "abcdefghij0123456789 ", "AB12>*\r ", "AB12.,-()"][:2 if tail else 4])
+            ln = (6 if tail else 3) + rng.randrange(16)
             s = [rng.choice(base) for _ in range(ln)]
-            for _ in range(rng.choice([1, 1, 2])):
-                s[max(0, ln - 1 - rng.randrange(4))] = rng.choice("abcxyzéÉ !^\x01~ABC")
+            if tail:
+                s[ln - 1] = rng.choice("éÉ\xa0ÿ")
+                if rng.random() < 0.3:
+                    s[max(0, ln - 2 - rng.randrange(3))] = rng.choice("abcxyzABC!^ ")
+            else:
+                for _ in range(rng.choice([1, 1, 2])):
+                    s[max(0, ln - 1 - rng.randrange(4))] = rng.choice("abcxyzéÉ !^\x01~ABC")
             s = "".join(s)
         hints = []
         sh = rng.randrange(4)
         if sh:
             hints.append(H("DATA_MATRIX_SHAPE", 4, i=sh % 3))
-        if rng.random() < 0.75:
+        if tail:
+            a, b = rng.choice(DM_SIZES[:6] + [(18, 8), (32, 8), (26, 12), (10, 44), (36, 12)])
+            hints.append(H("MAX_SIZE", 5, a=a, b=b))
+        elif rng.random() < 0.75:
             a, b = rng.choice(DM_SIZES) if rng.random() < 0.6 else (rng.choice(DM_DIMS), rng.choice(DM_DIMS))
             hints.append(H("MAX_SIZE", 5, a=a, b=b))
         if rng.random() < 0.3:
             a, b = rng.choice(DM_SIZES) if rng.random() < 0.6 else (rng.choice(DM_DIMS), rng.choice(DM_DIMS))
             hints.append(H("MIN_SIZE", 5, a=a, b=b))
         c = B(s)
-        out.append(mk(plain("DM", hints), ("dm mode machine", c, len(c))))
-    return out
+        yield mk(plain("DM", hints), ("dm mode machine", c, len(c)))
 
 
 def c128_family(rng, n):
-    out = []
     for _ in range(n):
         ln = 1 + rng.randrange(10)
         alpha = rng.choice(["0123456789", "0123456789ñ", "AB12ñ", "ab\x01A1 ", "0123456789A", "ñòóô" + "12"])
@@ -156,8 +162,7 @@ def c128_family(rng, n):
         hints = [H("FORCE_CODE_SET", 1, sn=rng.choice(["A", "B", "C", "C", "D"]))] if rng.random() < 0.8 else []
         if rng.random() < 0.2:
             hints.append(H("MARGIN", 0, i=rng.choice([0, 3, 25])))
-        out.append(mk(plain("C128", hints), ("code 128 code sets", c, len(c))))
-    return out
+        yield mk(plain("C128", hints), ("code 128 code sets", c, len(c)))
 
 
 def margin_family(rng, quick):
@@ -185,15 +190,16 @@ def gen_configs(ctx):
     return cfgs
 
 
-def build_inputs(ctx, cfgs):
+def input_stream(ctx, cfgs):
     rng = random.Random(ctx.seed * 104729 + (1 if ctx.quick else 2))
     allc = {wr: common_contents() + own_contents(wr) for wr in WRITERS}
-    inputs = []
     # every writer x every content class, plain call and a generous size
     for wr in WRITERS:
-        for c in allc[wr] + random_contents(wr, rng, 6 if ctx.quick else 60):
-            inputs.append(mk(plain(wr), c))
-            inputs.append(mk(plain(wr, wk=2, w0=3, hk=2, h0=3), c))
+        for c in allc[wr] + random_contents(wr, rng, 6 if ctx.quick else 80):
+            yield mk(plain(wr), c)
+            yield mk(plain(wr, wk=2, w0=3, hk=2, h0=3), c)
+    for x in margin_family(rng, ctx.quick):
+        yield x
     # the TLC-generated configuration space x content classes
     for cfg in cfgs:
         wr = cfg["wr"]
@@ -210,17 +216,28 @@ def build_inputs(ctx, cfgs):
                 pick = [rng.choice(own[:3])] if rng.random() < 0.7 else [rng.choice(allc[wr])]
         else:
             if g1:
-                pick = [own[0], own[1], rng.choice(allc[wr]), rng.choice(allc[wr])]
+                pick = [own[0], own[1]] + [rng.choice(allc[wr]) for _ in range(4)]
             elif len(cfg["hints"]) == 1:
-                pick = list(allc[wr])
+                pick = list(allc[wr]) + random_contents(wr, rng, 2)
             else:
-                pick = own[:3] + [rng.choice(allc[wr]) for _ in range(3)]
+                pick = own[:3] + [rng.choice(allc[wr]) for _ in range(4)]
         for c in pick:
-            inputs.append(mk(cfg, c))
-    inputs += margin_family(rng, ctx.quick)
-    inputs += dm_family(rng, 6000 if ctx.quick else 400000)
-    inputs += c128_family(rng, 1500 if ctx.quick else 40000)
-    return inputs
+            yield mk(cfg, c)
+    for x in c128_family(rng, 1500 if ctx.quick else 60000):
+        yield x
+    for x in dm_family(rng, 6000 if ctx.quick else 1200000):
+        yield x
+
+
+def batches(it, n):
+    cur = []
+    for x in it:
+        cur.append(x)
+        if len(cur) >= n:
+            yield cur
+            cur = []
+    if cur:
+        yield cur
 
 
 # ---------------------------------------------------------------- judging
@@ -268,8 +285,10 @@ def to_input(o):
 
 
 def tlc_judge(ctx, obs):
+    """a TLC process costs seconds to start and a fraction of a millisecond per event: few, large shards"""
     slim = [{k: o[k] for k in KEEP} for o in obs]
-    return vlib.validate(ctx, "Trace_EncTotality", slim, stateless=True, timeout=3000)
+    return vlib.validate(ctx, "Trace_EncTotality", slim, stateless=True, timeout=3000,
+                         shards=max(1, min(vlib.NCPU, len(slim) // 5000)))
 
 
 def judge(ctx, inputs, label):
@@ -326,16 +345,18 @@ def run(ctx):
              "and too-small matrices, and is met by the reference rendering" % ("single hints" if ctx.quick else "whole space, with Return", res.generated, res.distinct))
     cfgs = gen_configs(ctx)
     ctx.note("Gen_EncTotality: %d configurations (11 writers x 17 formats x 7x7 size classes; single hint values; hint combinations)" % len(cfgs))
-    inputs = build_inputs(ctx, cfgs)
-    obs = judge(ctx, inputs, "configuration space x contents")
-    samples(ctx, obs)
+    n = 0
+    for k, batch in enumerate(batches(input_stream(ctx, cfgs), 160000)):
+        obs = judge(ctx, batch, "configuration space x contents" if k == 0 else "batch %d" % (k + 1))
+        samples(ctx, obs)
+        n += len(obs)
     ctx.exhaustive = False
     ctx.extra["configurations"] = len(cfgs)
     return vlib.finish(ctx, rule="one case = one Writer.Encode call (writer, format, contents, resolved size, hints). The configuration space "
                        "is enumerated by TLC; the thorough tier replays all of it (single-hint configurations with every content "
                        "class), the quick tier a seeded selection; Data Matrix and Code 128 families are seeded",
                        assumptions=["hint values are of the types the API documents (wrong types are outside the property)",
-                                    "time bound: 2 s per call, confirmed with 8 s in a fresh process before it counts as a hang",
+                                    "time bound: 2 s of processor time per call (wall-clock limit 30 s, heap limit 1.5 GB), each call in a worker process",
                                     "requested sizes up to 10 x the symbol, margins up to 2000 (memory)"],
                        trusted=["TLC", "spec/EncTotality.tla with QRTables / DMTables / OneD / Charset", "harness/c12 (recover, watchdog, "
                                 "bare 0x0 margin-0 call as the symbol's module matrix)"])
